@@ -263,14 +263,16 @@ def Ctx.depth : Ctx → Nat
   | .hole => 0
   | .tup _ c _ | .dct _ c _ | .lst c | .frame c | .first c => c.depth + 1
 
-/-- everything evaluated before the hole returns -/
-def Ctx.PreOk (E : EvalEnv) : Ctx → Prop
+/-- everything evaluated before the hole returns; a `First(key)` frame is not crossed by a
+    StopIteration (`next(filter(key, …))` takes it for the end of the iteration) -/
+def Ctx.PreOk (E : EvalEnv) (o : Origin) : Ctx → Prop
   | .hole => True
-  | .tup pre c _ | .dct pre c _ => (∀ p ∈ pre, eval E p = .val) ∧ c.PreOk E
-  | .lst c | .frame c | .first c => c.PreOk E
+  | .tup pre c _ | .dct pre c _ => (∀ p ∈ pre, eval E p = .val) ∧ c.PreOk E o
+  | .lst c | .frame c => c.PreOk E o
+  | .first c => E.caught o ["StopIteration"] = false ∧ c.PreOk E o
 
 theorem plug_propagates (E : EvalEnv) (c : Ctx) (x : Sp) (o : Origin)
-    (hpre : c.PreOk E) (hx : eval E x = .exc o) : eval E (c.plug x) = .exc o := by
+    (hpre : c.PreOk E o) (hx : eval E x = .exc o) : eval E (c.plug x) = .exc o := by
   induction c with
   | hole => exact hx
   | tup pre c post ih =>
@@ -284,7 +286,8 @@ theorem plug_propagates (E : EvalEnv) (c : Ctx) (x : Sp) (o : Origin)
   | frame c ih =>
     simp only [Ctx.plug, eval, frameG_id, ih hpre]
   | first c ih =>
-    simp only [Ctx.plug, eval, frameG_id, ih hpre]
+    simp only [Ctx.plug, eval, frameG_id, ih hpre.2, hpre.1]
+    simp
 
 /-! ### the only exception objects an evaluation can end with -/
 
@@ -329,7 +332,16 @@ theorem eval_origin (E : EvalEnv) :
     | val => simpa [h] using ih
     | exc o => simpa [h] using ih
   case case8 => intro a ih; simpa [eval, frameG_id, hasFault] using ih
-  case case9 => intro a ih; simpa [eval, frameG_id, hasFault] using ih
+  case case9 =>
+    intro a ih
+    simp only [eval, frameG_id, hasFault]
+    cases h : eval E a with
+    | val => simp [OriginOk]
+    | exc o =>
+      rw [h] at ih
+      by_cases hc : E.caught o ["StopIteration"] = true
+      · simp [hc, OriginOk]
+      · simpa [hc] using ih
   case case10 => intro a sk d ih; simpa [eval, frameG_id, hasFault] using ih
   case case11 => intro x; simp [evalCoal, OriginOk]
   case case12 => intro x d hd; simp [evalCoal, hd, OriginOk, internalClasses]
